@@ -61,6 +61,9 @@ def run_block(machine_name, verif_seed, tier, profile, start, count,
     desc = None
     try:
       desc = generate(machine, verif_seed, tier, profile, i)
+      if os.environ.get('VERIF_SELFTEST_HARNESS_ERROR') == '%s:%d' % (
+          machine_name, i):
+        raise RuntimeError('self-test: simulated harness exception')
       res = machine.execute(desc)
       if twice:
         # same description again in the same interpreter, after regenerating
